@@ -5,7 +5,7 @@ from gen import SeqGen
 ID = "C07"
 HEAP_SUMMARY = True      # end every program with the reference-level observation (BB.Model.Heap vs id() walk)
 LEAN_MODULE = "BB.Properties.C07"
-QUICK_N = 250
+QUICK_N = 500
 THOROUGH_N = 4000
 RULE = ("sequences built by adding 0-6 elements/subsequences at positions drawn from 1..6 in random order (overwriting "
         "included), 35% with a gap, 20% with one deviating channel set, 15% with one deviating sample rate, with a random "
